@@ -42,6 +42,27 @@ SPECIALS = [
     ".loop 9223372036854775807 { }", ".loop 100 { .loop 100 { .loop 200 { } } }", ".macro m() { m()\n m() }\nm()", ".macro a() { b()\n b() }\n.macro b() { a()\n a() }\na()",
     ".macro m(n) { m(n + 1)\n m(n + 2) }\nm(0)", "s: { .macro m() { s.m()\n m()\n super.s.m() } }\ns.m()", ".loop 3 { .loop 1 << 40 { } }", ".macro m() { .loop 1 << 30 { } }",
     ".if 0 { .loop 1 << 50 { } }", ".loop 2000 { .if index > 5 { .loop 2000 { } } }",
+    # names of the assembler's own symbols and keywords in other roles
+    "segments: { default: { .const start = 1 } }", "segments: { default: { start: nop } }", "segments: nop", ".const segments = 1\n.byte segments",
+    "segments: { default: nop }\n.word segments.default.end", "cpu: { a: nop }", ".const index = 1\n.loop 2 { .byte index }", "ram: nop\n.byte ram",
+    '.import super as bar from "b.asm"', '.import super from "b.asm"', '.import n as super from "b.asm"', '.import * as super from "b.asm"',
+    "super: nop", ".const super = 1", ".macro super() { nop }\nsuper()", "lda super", "lda super.super.super", '.segment "super"', "a: { lda super.a.super.a }",
+    # functions in their own arguments
+    ".if defined(defined(foo)) { nop }", ".byte defined(defined(x))", ".byte defined(1 + defined(a))", '.text "{defined(defined(q))}"',
+    # long flat constructs
+    "lda #" + "1+" * 200000 + "1", ".byte " + "1*" * 100000 + "1", ".byte " + "1," * 200000 + "1", "a: " * 50000 + "nop", "nop\n" * 200000,
+    ".byte " + "(1)+" * 50000 + "1", '.text "' + "{a}" * 50000 + '"\n.const a = 1', "lda " + "a." * 50000 + "b",
+    # characters whose lower case is ASCII
+    "br\u212a", "\u212a", "lda #1\n.loo\u212a 1 { }", "ld\u0131 #1", ".\u212a", "a\u212a: nop", ".text \"\u212a\"", ".byte \u0130", "st\u017f $10",
+    # blocks inside self-invoking macros
+    ".macro m() { " + "{" * 95 + " m() " + "}" * 95 + " }\nm()", ".macro m() { " + ".if 1 {" * 60 + " m() " + "}" * 60 + " }\nm()",
+    ".macro m() { " + "a: {" * 50 + " m() " + "}" * 50 + " }\nm()",
+    # segments used inside untaken code (analysis mode visits it)
+    '.define segment { name = "a" start = $1000 }\n.define segment { name = "b" start = $2000 }\n.if 0 { .segment "b" { .if 0 { nop } } nop }',
+    '.define segment { name = "a" start = $1000 }\n.macro m() { .segment "a" { .if 0 { .segment "a" { nop } } } }',
+    '.if 0 { .define segment { name = "z" start = 1 } .segment "z" { nop } }', '.macro m() { .define bank { name = "k" } }\nnop',
+    '.segment "data" { .byte 1, 2, 3 }\n.define segment { name = "data" start = $1000 }',
+    ".byte\u00e9 1, 2", ".define foo\u20ac", "lda #\u00e9", ".if\u00e9 { }", ".loop\u20ac {}",
     ".loop 70000 { nop }", ".loop 10 { l: nop }", ".const a = a", ".const a = b\n.const b = a\n.byte a", ".var a = a + 1\n.byte a", "a: .byte b\nb: .byte a",
     "* = $ffff\nnop\nnop", "* = $10000\nnop", "* = $fffe\nlda $1234", ".segment \"default\" { .segment \"default\" { nop } }",
     ".if 0 { .define segment { name = \"z\" } }\n.segment \"z\"\nnop", ".macro m() { .if 0 { nop } }", ".macro m(a) { .if a { nop } else { brk } }",
@@ -139,6 +160,11 @@ def check_response(acc, r, files, origin):
         err = r.get("stderr", "")
         kind = "stack-overflow" if "overflowed its stack" in err else ("alloc-failure" if "memory allocation" in err else "signal/exit %s" % r["died"])
         acc.violation("abort|%s|%s" % (kind, origin_class(origin)), "process aborted (%s): %s" % (kind, err[-200:]), dict(witness, response=r))
+        return
+    if "blocked" in r:
+        # every thread of the probe asleep, no CPU consumed for five consecutive seconds while a request is pending
+        acc.violation("deadlock|%s" % origin_class(origin), "the library blocks forever (all threads asleep, %s s CPU in total) on %s" % (r.get("cpu_s"), origin[:80]),
+                      dict(witness, response=r))
         return
     if "timeout" in r:
         acc.inconc("watchdog fired (cpu %s s) on %s" % (r.get("cpu_s"), origin))
